@@ -6,6 +6,7 @@
 
 use crate::common::*;
 use crate::frames::{self, FrameCase};
+use crate::refz;
 use ruzstd::decoding::{BlockDecodingStrategy, FrameDecoder, StreamingDecoder};
 use serde_json::json;
 
@@ -280,6 +281,68 @@ pub fn run(args: &Args) -> i32 {
                     }
                 }
             }
+        }
+    }
+
+    // valid frames whose sequences use the largest codes that fit into a block together with offsets of 16 MiB and more
+    // (offset codes 24..=27, up to 58 extra bits in one sequence): tens of MiB of RLE blocks, then compressed blocks whose
+    // matches reach back to the beginning. One after the other (each holds a few hundred MiB while it runs).
+    if !small_only {
+        use zspec::frame::HeaderSpec;
+        use zspec::synth::{BlockPlan, CompressedPlan, CountForm, FramePlan, LitPlan, OffsetPlan, SeqPlan, TableMode};
+        let mut r = Rng::for_case(args.seed, 1, 77);
+        let of_codes: &[u32] = if args.thorough() { &[24, 25, 26, 27, 28] } else { &[24, 26, 27] };
+        for &of_code in of_codes {
+            let base: u64 = 1 << of_code;
+            let nblocks = (base / (128 * 1024)) as usize + 3;
+            let mut blocks: Vec<BlockPlan> = (0..nblocks).map(|i| BlockPlan::Rle { byte: (i * 7 + 3) as u8, len: 128 * 1024 }).collect();
+            // (ll, ml): codes 35+51 (16+15 bits), 34+51 (15+15), 35+50 (16+14), small ones in front to shift the bit alignment
+            // the widest sequences (58 bits and more with offset codes from 27) at many bit alignments
+            let mut shapes: Vec<(u32, u32)> = vec![(65_536u32, 32_771u32), (40_000, 60_000), (70_000, 20_000), (65_600, 32_800)];
+            if of_code >= 27 {
+                shapes.extend((0..14u32).map(|j| (65_536 + j * 37, 32_771 + j * 101)));
+            }
+            for (k, (ll, ml)) in shapes.into_iter().enumerate() {
+                let mut seqs = Vec::new();
+                for _ in 0..k {
+                    seqs.push(SeqPlan { ll: 1, ml: 3, offset: OffsetPlan::Raw(1) });
+                }
+                // the distance keeps the offset value inside the code: 2^code <= distance + 3 < 2^(code+1), and inside the data
+                let distance = (base - 3 + r.range(0, 100_000)) as u32;
+                seqs.push(SeqPlan { ll, ml, offset: OffsetPlan::Raw(distance) });
+                // ... and behind it: the stream is read backwards and ends byte aligned, so the alignment of the wide
+                // read depends on what follows it
+                let after = k / 2 + k % 3;
+                for j in 0..after {
+                    seqs.push(SeqPlan { ll: (j % 3) as u32, ml: 3 + (j % 5) as u32, offset: OffsetPlan::Raw(1 + (j % 7) as u32) });
+                }
+                let nlit = (ll as usize) + k + 3 * after + r.usize(0, 20);
+                let modes = match k % 3 {
+                    0 => (TableMode::Predefined, TableMode::Predefined, TableMode::Predefined),
+                    1 => (TableMode::Fse { acc_log: None, norm: None }, TableMode::Fse { acc_log: None, norm: None }, TableMode::Fse { acc_log: None, norm: None }),
+                    _ => (TableMode::Predefined, TableMode::Fse { acc_log: None, norm: None }, TableMode::Predefined),
+                };
+                blocks.push(BlockPlan::Compressed(CompressedPlan { literals: r.bytes(nlit), lit: LitPlan::Raw { size_format: None }, seqs, ll_mode: modes.0, of_mode: modes.1, ml_mode: modes.2, seq_count_form: CountForm::Auto }));
+            }
+            // window: the next power of two above everything, so that every distance is inside it
+            let window_log = of_code + 1;
+            let plan = FramePlan { header: HeaderSpec { window_descriptor: Some(((window_log - 10) << 3) as u8), ..Default::default() }, blocks, dict: None, checksum_override: None };
+            let s = zspec::synth::synthesise(&plan);
+            if !s.rule_violations.is_empty() {
+                rec.inconclusive(&format!("harness: far offset plan (offset code {of_code}) breaks a rule: {:?}", s.rule_violations.first()));
+                continue;
+            }
+            match refz::decompress_expecting(&s.bytes, s.expected.len()) {
+                Ok(d) if d == s.expected => {}
+                other => {
+                    rec.inconclusive(&format!("harness: the reference decoder does not agree with the far offset plan (offset code {of_code}): {:?}", other.map(|d| d.len())));
+                    continue;
+                }
+            }
+            let c = FrameCase { bytes: s.bytes, expected: s.expected, origin: format!("synth: far offsets, offset code {of_code}, largest literal and match length codes"), dict: None };
+            let _g = case_guard(102, u64::from(of_code));
+            judge(&rec, &c, &[0, 2, 3]);
+            rec.count("far_offset_frames", 1);
         }
     }
 
